@@ -2618,6 +2618,19 @@ def snprintf_rules(fb, R):
                             R.broken('%s: index expression %s is not <result> + constant' % (fn.full, fn.expr(n['idx'])))
                             continue
                         need = (0 - off, arr - 1 - off)       # the variable itself must lie in this range
+                if n.get('k') == 'binop' and n.get('op') in ('+', '-') and need is None:
+                    # pointer into the array: buffer + <result> (+ constant); one past the end is a valid pointer value
+                    for (pa, ia) in ((n['lhs'], n['rhs']), (n['rhs'], n['lhs'])):
+                        rv = fn.root_var(pa)
+                        pt = (fn.nodes.get(peel(fn, pa), {}).get('t') or '')
+                        if rv is not None and rv[0] == 'var' and rv[1] == bd and local_or_param(fn, pa) == bd and _mentions(fn, ia, ld) \
+                                and (n['op'] == '+' or pa == n['lhs']) and ('[' in pt or '*' in pt):
+                            off = _affine_offset(fn, ia, ld)
+                            if off is None:
+                                R.broken('%s: pointer offset %s is not <result> + constant' % (fn.full, fn.expr(ia)))
+                                continue
+                            sgn = 1 if n['op'] == '+' else -1
+                            need = ((0 - off), (arr - off)) if sgn == 1 else None
                 if n.get('k') == 'call' and n.get('args') and n['id'] != c['id']:
                     cnt = [x for x in n['args'] if local_or_param(fn, x) == ld]
                     srcs = list(n['args']) + ([n['recv']] if n.get('recv') is not None else [])
@@ -2669,7 +2682,7 @@ def trim_rules(fb, R):
             split(c)
             zero_cmp = [x for x in conj if (pn(fn, x) or {}).get('k') == 'binop' and pn(fn, x).get('op') == '==' and
                         {char_of(fn, pn(fn, x)['lhs']), char_of(fn, pn(fn, x)['rhs'])} & {'0'} and
-                        any(fn.nodes[y].get('k') == 'index' for y in fn.subtree(x))]
+                        any(fn.nodes[y].get('k') == 'index' or (fn.nodes[y].get('k') == 'unop' and fn.nodes[y].get('op') == '*') for y in fn.subtree(x))]
             if not zero_cmp:
                 continue
             found = True
